@@ -1,6 +1,7 @@
 package harness
 
 import (
+	"encoding/binary"
 	"fmt"
 	"regexp"
 	"strings"
@@ -90,29 +91,41 @@ func checkConcurrent(prop string, x *Exec, c *Case, nsched int) ([]Violation, bo
 	n := len(c.Conns)
 	soloT := make([]string, n)
 	soloE := make([]string, n)
-	for i := 0; i < n; i++ {
-		s := c.Clone()
-		s.Sched = nil
-		s.Conns = []ConnCase{c.Conns[i]}
-		r := x.Run(s)
-		if len(r.Conns) != 1 {
-			return nil, false
-		}
-		cs := r.Conns[0]
-		t := ParseOut(cs)
-		viol = append(viol, GrammarViolation(prop, i, t)...)
-		soloT[i] = Canonical(t.Msgs)
-		soloE[i] = normRemote(CallbackTrace(cs))
-		if nm, _ := c.Expect["no_model"].(bool); t.Grammar == nil && !nm {
-			if mr := MatchConn(s, cs, t); !mr.OK {
-				viol = append(viol, Violation{Prop: prop, Rule: mr.Rule, Sig: mr.Sig, Detail: fmt.Sprintf("conn %d served alone: %s", i, mr.Detail)})
+	solos := func() bool {
+		for i := 0; i < n; i++ {
+			s := c.Clone()
+			s.Sched = nil
+			s.Conns = []ConnCase{c.Conns[i]}
+			r := x.Run(s)
+			if len(r.Conns) != 1 {
+				return false
+			}
+			cs := r.Conns[0]
+			t := ParseOut(cs)
+			viol = append(viol, GrammarViolation(prop, i, t)...)
+			soloT[i] = Canonical(t.Msgs)
+			soloE[i] = normRemote(CallbackTrace(cs))
+			if nm, _ := c.Expect["no_model"].(bool); t.Grammar == nil && !nm {
+				if mr := MatchConn(s, cs, t); !mr.OK {
+					viol = append(viol, Violation{Prop: prop, Rule: mr.Rule, Sig: mr.Sig, Detail: fmt.Sprintf("conn %d served alone: %s", i, mr.Detail)})
+				}
 			}
 		}
+		return true
 	}
-	if len(viol) > 0 {
-		return viol, true
+	// one concurrent run, kept until the solo runs are known
+	type concRun struct {
+		v       *Case
+		k       int
+		kinds   []string
+		ct, ce  []string
+		gv      [][]Violation
+		nconns  int
+		stuck   *Violation
+		budget  bool
+		started bool
 	}
-	for k := 0; k < nsched; k++ {
+	concurrent := func(k int) *concRun {
 		v := c.Clone()
 		v.Sub = c.Sub + uint64(k)*7919
 		if k > 0 {
@@ -122,32 +135,73 @@ func checkConcurrent(prop string, x *Exec, c *Case, nsched int) ([]Violation, bo
 		}
 		r := x.Run(v)
 		v.Sched.Schedule = r.Schedule
+		cr := &concRun{v: v, k: k, nconns: len(r.Conns), started: true}
 		if r.Outcome == RunBudget {
 			// the decision budget of the simulator ran out: inconclusive, not a verdict
 			x.Probe("decision_budget_exhausted")
-			return viol, false
+			cr.budget = true
+			return cr
 		}
 		if r.Outcome != RunIdle || r.Dirty {
-			*c = *v
-			return []Violation{{Prop: prop, Rule: "concurrent-run-stuck", Sig: "concurrent-run-stuck", Detail: fmt.Sprintf("the concurrent run did not finish: outcome=%d parked=%v %s", r.Outcome, r.Stuck, r.DirtyWhy)}}, true
+			cr.stuck = &Violation{Prop: prop, Rule: "concurrent-run-stuck", Sig: "concurrent-run-stuck", Detail: fmt.Sprintf("the concurrent run did not finish: outcome=%d parked=%v %s", r.Outcome, r.Stuck, r.DirtyWhy)}
+			return cr
 		}
 		for i, cs := range r.Conns {
 			t := ParseOut(cs)
-			gv := GrammarViolation(prop, i, t)
-			ct := Canonical(t.Msgs)
-			ce := normRemote(CallbackTrace(cs))
-			if len(gv) > 0 || ct != soloT[i] || ce != soloE[i] {
-				*c = *v
+			cr.gv = append(cr.gv, GrammarViolation(prop, i, t))
+			cr.ct = append(cr.ct, Canonical(t.Msgs))
+			cr.ce = append(cr.ce, normRemote(CallbackTrace(cs)))
+			cr.kinds = append(cr.kinds, pgwire.Kinds(t.Msgs))
+		}
+		return cr
+	}
+	// judge compares one concurrent run with the solo runs; done=true ends the check
+	judge := func(cr *concRun) (done bool, nontrivial bool) {
+		if cr.budget {
+			return true, false
+		}
+		if cr.stuck != nil {
+			*c = *cr.v
+			viol = []Violation{*cr.stuck}
+			return true, true
+		}
+		for i := range cr.ct {
+			if len(cr.gv[i]) > 0 || cr.ct[i] != soloT[i] || cr.ce[i] != soloE[i] {
+				*c = *cr.v
 				what := "transcript"
-				if ct == soloT[i] {
+				if cr.ct[i] == soloT[i] {
 					what = "callback trace"
 				}
-				viol = append(viol, gv...)
+				viol = append(viol, cr.gv[i]...)
 				viol = append(viol, Violation{Prop: prop, Rule: "connection-interference", Sig: "interference " + what,
-					Detail: fmt.Sprintf("connection %d of %d: its %s differs between being served alone and being served concurrently (schedule %d):\n  alone:      %s | %s\n  concurrent: %s | %s\n  first difference: %s", i, len(r.Conns), what, k,
-						trunc(kindsOfCanonical(soloT[i]), 100), trunc(strings.ReplaceAll(soloE[i], "\n", "; "), 200), trunc(pgwire.Kinds(t.Msgs), 100), trunc(strings.ReplaceAll(ce, "\n", "; "), 200), firstDiff(soloT[i]+"|"+soloE[i], ct+"|"+ce))})
-				return viol, true
+					Detail: fmt.Sprintf("connection %d of %d: its %s differs between being served alone and being served concurrently (schedule %d):\n  alone:      %s | %s\n  concurrent: %s | %s\n  first difference: %s", i, cr.nconns, what, cr.k,
+						trunc(kindsOfCanonical(soloT[i]), 100), trunc(strings.ReplaceAll(soloE[i], "\n", "; "), 200), trunc(cr.kinds[i], 100), trunc(strings.ReplaceAll(cr.ce[i], "\n", "; "), 200), firstDiff(soloT[i]+"|"+soloE[i], cr.ct[i]+"|"+cr.ce[i]))})
+				return true, true
 			}
+		}
+		return false, true
+	}
+	// half of the cases run their first concurrent schedule BEFORE any solo run:
+	// whatever the code under test sets up lazily and process-wide (caches,
+	// pools, sync.Once) is then first touched by several connections at once
+	// instead of being warmed up by a lone session
+	var first *concRun
+	if c.Sub%2 == 1 && nsched > 0 {
+		first = concurrent(0)
+	}
+	if !solos() {
+		return nil, false
+	}
+	if len(viol) > 0 {
+		return viol, true
+	}
+	for k := 0; k < nsched; k++ {
+		cr := first
+		if k > 0 || cr == nil {
+			cr = concurrent(k)
+		}
+		if done, nt := judge(cr); done {
+			return viol, nt
 		}
 	}
 	return viol, n > 1
@@ -307,10 +361,97 @@ func genC15Cancel(r *Rand) *Case {
 	return c
 }
 
+// int4ArrayBinary is the binary form of a one-dimensional int4[] value.
+func int4ArrayBinary(vals []int32) []byte {
+	var b []byte
+	b = binary.BigEndian.AppendUint32(b, 1)  // dimensions
+	b = binary.BigEndian.AppendUint32(b, 0)  // no NULLs
+	b = binary.BigEndian.AppendUint32(b, 23) // element type int4
+	b = binary.BigEndian.AppendUint32(b, uint32(len(vals)))
+	b = binary.BigEndian.AppendUint32(b, 1) // lower bound
+	for _, v := range vals {
+		b = binary.BigEndian.AppendUint32(b, 4)
+		b = binary.BigEndian.AppendUint32(b, uint32(v))
+	}
+	return b
+}
+
+// genC15BinCopy: 2-3 connections load rows with array-typed columns through
+// the documented binary COPY row reader at the same time (decoding an array
+// consults the connection's type map for its element type).
+func genC15BinCopy(r *Rand) *Case {
+	c := &Case{Variant: "binary-copy-side-by-side", Server: ServerCfg{Limit: 65536}, Programs: map[string]*Program{probeKey: probeProgram()}, Expect: map[string]any{"no_model": true}}
+	n := r.Range(2, 3)
+	shared := r.Bool()
+	for i := 0; i < n; i++ {
+		key := fmt.Sprintf("cp%d", i)
+		if shared {
+			key = "cp"
+		}
+		cols := []ColSpec{{Name: "ids", OID: 1007}, {Name: "label", OID: pgwire.OIDText}}
+		if r.Bool() {
+			cols = append(cols, ColSpec{Name: "more", OID: 1007})
+		}
+		c.Programs[key] = &Program{Stmts: []*StmtProg{{Cols: cols, Ops: []Op{{K: "copyin", Fmt: 1}, {K: "binrows"}, {K: "finishcopy", Tag: "COPY"}}}}}
+		ncols := len(c.Programs[key].Stmts[0].Cols)
+		var rows [][][]byte
+		for k := r.Range(1, 4); k > 0; k-- {
+			row := make([][]byte, ncols)
+			for j := 0; j < ncols; j++ {
+				if j == 1 {
+					row[j] = []byte(r.Ident(r.Range(0, 8)))
+					continue
+				}
+				vals := make([]int32, r.Range(0, 4))
+				for q := range vals {
+					vals[q] = int32(r.Intn(1000)) - 500
+				}
+				row[j] = int4ArrayBinary(vals)
+			}
+			rows = append(rows, row)
+		}
+		stream := pgwire.EncodeBinaryCopy(rows, r.Bool())
+		msgs := []pgwire.FMsg{{K: "Q", S1: key}}
+		for off := 0; off < len(stream); {
+			p := r.PickInt(len(stream), 7, 19, 40)
+			if off+p > len(stream) {
+				p = len(stream) - off
+			}
+			msgs = append(msgs, pgwire.FMsg{K: "d", Data: append([]byte{}, stream[off:off+p]...)})
+			off += p
+		}
+		msgs = append(msgs, pgwire.FMsg{K: "c"}, pgwire.FMsg{K: "Q", S1: probeKey})
+		c.Conns = append(c.Conns, ConnCase{Steps: []Step{{Msgs: []pgwire.FMsg{startupMsg(fmt.Sprintf("u%d", i), "d")}}, {Msgs: msgs}}})
+	}
+	c.Sched = &SchedCase{Strategy: r.Pick("uniform", "pct", "pct"), Depth: r.Range(1, 3), MaxSteps: 300000}
+	return c
+}
+
+// genC15LargeIdle: 8-11 sessions each send one message of a little over 1 MiB
+// (well within the limit) and then sit idle; one more session does the same
+// and goes on with a query. Whatever the server holds on behalf of the idle
+// ones, the last session is served as if it were alone.
+func genC15LargeIdle(r *Rand) *Case {
+	c := &Case{Variant: "large-messages-then-idle", Server: ServerCfg{Limit: r.PickInt(2<<20, 4<<20, 0)}, Programs: map[string]*Program{probeKey: probeProgram()}, Expect: map[string]any{"no_model": true}}
+	n := r.Range(8, 11)
+	size := 1<<20 + r.PickInt(0, 1, 16, 4096)
+	// (a stray CopyData: ignored outside COPY, so that the bulk goes through the
+	// server's reader and nowhere else)
+	big := pgwire.FMsg{K: "d", Data: make([]byte, size)}
+	sc := &SchedCase{Strategy: r.Pick("uniform", "pct"), Depth: 1, MaxSteps: 300000}
+	for i := 0; i < n; i++ {
+		c.Conns = append(c.Conns, ConnCase{Steps: []Step{{Msgs: []pgwire.FMsg{startupMsg(fmt.Sprintf("idle%d", i), "d")}}, {Msgs: []pgwire.FMsg{big}}}, NoEOF: true})
+		sc.Holds = append(sc.Holds, Hold{Task: 1 + n, Point: "conn.start", Until: 1 + i, UntilPoint: "idle"})
+	}
+	c.Conns = append(c.Conns, ConnCase{Steps: []Step{{Msgs: []pgwire.FMsg{startupMsg("last", "d")}}, {Msgs: []pgwire.FMsg{big}}, {Msgs: []pgwire.FMsg{{K: "Q", S1: probeKey}}}}})
+	c.Sched = sc
+	return c
+}
+
 func init() {
 	register(&Prop{
 		ID: "C15", Level: "exploration", QuickS: 30, ThoroughS: 480, Race: true,
-		Rule: "seeded sets of 2-5 sessions drawn from the generators of C05-C09/C13 (simple and extended queries, COPY, failing handlers, Close) that deliberately use the same statement/portal names, different users and different Go row types for the same OIDs; each session is first served alone on a fresh server (E1), then all together on one server under 4 (quick) / 8 (thorough) seeded schedules (uniform, PCT depth 1-3; schedule points at every transport operation, callback entry, row write and spliced sync operation, so handler executions interleave at row granularity and one connection may be starved until the others are done); oracle (a): per connection the canonical transcript and callback trace equal the solo ones; oracle (b): the -race shard with the HB-transparent scheduler reports nothing (a report is attributed to the case and confirmed by replaying it alone in a fresh -race process); a third of the sets contain a twin (a second client sending exactly what one of the sessions sends: the same statements, and with them the same handler-owned column descriptions, are in use on two connections at once), in a fifth every peer's remote address prints the same text (unix-domain socket, in-memory listener); a quarter of the sets are preceded by a probe connection (EOF, junk, HTTP request or truncated startup packet); a tenth of the cases are 2-3 clients that upgrade to TLS at the same time on a fresh server and run a short session each (transcripts compared with the plaintext solo runs; the -race shard covers the upgrade path); variants: login-storm (5-8 wrong-password connections for one user name, then the right one), session-context-ends (one session's middleware-derived context is cancelled and the client goes on sending beside ordinary sessions); non-trivial = at least two connections; distinct = distinct case content hashes; distinct_interleavings = distinct (task, point) decision sequences",
+		Rule: "seeded sets of 2-5 sessions drawn from the generators of C05-C09/C13 (simple and extended queries, COPY, failing handlers, Close) that deliberately use the same statement/portal names, different users and different Go row types for the same OIDs; each session is first served alone on a fresh server (E1), then all together on one server under 4 (quick) / 8 (thorough) seeded schedules (uniform, PCT depth 1-3; schedule points at every transport operation, callback entry, row write and spliced sync operation, so handler executions interleave at row granularity and one connection may be starved until the others are done); oracle (a): per connection the canonical transcript and callback trace equal the solo ones; oracle (b): the -race shard with the HB-transparent scheduler reports nothing (a report is attributed to the case and confirmed by replaying it alone in a fresh -race process); a third of the sets contain a twin (a second client sending exactly what one of the sessions sends: the same statements, and with them the same handler-owned column descriptions, are in use on two connections at once), in a fifth every peer's remote address prints the same text (unix-domain socket, in-memory listener); a quarter of the sets are preceded by a probe connection (EOF, junk, HTTP request or truncated startup packet); a tenth of the cases are 2-3 clients that upgrade to TLS at the same time on a fresh server and run a short session each (transcripts compared with the plaintext solo runs; the -race shard covers the upgrade path); variants: login-storm (5-8 wrong-password connections for one user name, then the right one), session-context-ends (one session's middleware-derived context is cancelled and the client goes on sending beside ordinary sessions), binary-copy-side-by-side (2-3 connections load rows with int4[] columns through the binary COPY row reader at the same time), large-messages-then-idle (8-11 sessions idle after a message of a little over 1 MiB, one more session sends the same and goes on); half of the cases run their first concurrent schedule before any solo run, so that lazily initialised process-wide state is first touched by several connections at once; non-trivial = at least two connections; distinct = distinct case content hashes; distinct_interleavings = distinct (task, point) decision sequences",
 		Components: []string{
 			"real: everything on the serving path (accept loop, per-connection goroutines, handshake, command loop, caches, type maps, writers, COPY readers, pgx codecs)",
 			"stub: listener/connections, handler programs; scheduler: harness/kernel.go serialises and chooses goroutines; race oracle: Go race detector of the -race worker, kernel synchronisation hidden via runtime.RaceDisable and //go:norace",
@@ -325,6 +466,12 @@ func init() {
 			}
 			if r.Chance(1, 25) {
 				return genC15Cancel(r)
+			}
+			if r.Chance(1, 25) {
+				return genC15BinCopy(r)
+			}
+			if r.Chance(1, 150) {
+				return genC15LargeIdle(r)
 			}
 			c := genConcurrent(r, r.Range(2, 5), histOpts{simple: true, extended: true, copy: r.Chance(1, 3), errs: true, params: true, binary: true, rich: true, typedNull: true, closes: true, unknownNames: true, multi: true, maxUnits: 4}, r.PickInt(1000, 4096, 65536))
 			// (how many ExtendTypes options the server was given decides the spare
@@ -353,6 +500,14 @@ func init() {
 			n := 4
 			if RaceEnabled || x.HashOn {
 				n = 2
+			}
+			if c.Variant == "large-messages-then-idle" {
+				if RaceEnabled {
+					// (a dozen MiB-sized messages under the race detector cost more
+					// than the watchdog allows; the plain shard runs this variant)
+					return nil, false
+				}
+				n = 1
 			}
 			return checkConcurrent("C15", x, c, n)
 		},
